@@ -66,6 +66,8 @@ sdp_msg_type_get(uint8_t *sdp_msg, size_t sdp_msg_size, const uint8_t type,
 
 	for (; NULL != val; i ++) {
 		val += 2;
+		if ((val + 2) > (sdp_msg + sdp_msg_size))
+			break; /* No room for "<type>=". */
 		if (type == (*val) && '=' == (*(val + 1))) {
 			/* Found! */
 			val += 2;
